@@ -30,6 +30,7 @@ def run(tier, wd):
     binpath = core.build_harness()
     rnd = random.Random(core.seed())
     q = tier == "quick"
+    core.replay_witnesses(rep, binpath, wd)
     # ---- lexical: every string over the character classes up to length 4 (5)
     res, runs, rows = lc.lexer_runs(rep, wd, binpath, "MCLex4" if q else "MCLex5")
     drift = 0
